@@ -104,6 +104,7 @@ fn main() {
             #[cfg(feature = "std-build")]
             facts!(8, unimock::mock::std::process::TerminationMock::report);
             facts!(9, PMock::mt);
+            facts!(40, DBMock::db);
             #[cfg(feature = "dtrait")]
             {
                 facts!(10, DMock::r0);
